@@ -254,7 +254,11 @@ Proof. vm_compute. reflexivity. Qed.
 Example ex_create_no_algorithm :
   exists pr, client_create_props (Some "/var/hs") (Some "3") (Some "2") None (Some "ns") = inr pr /\
              open_decision None false false (Some pr) = Refuse EValueError.
-Proof. eexists. split; vm_compute; reflexivity. Qed.
+Proof.
+  exists [("store_path", PStr "/var/hs"); ("store_depth", PInt 3); ("store_width", PInt 2);
+          ("store_algorithm", PNone); ("store_metadata_namespace", PStr "ns")].
+  split; vm_compute; reflexivity.
+Qed.
 
 Example ex_create_then_client_open :
   exists pr c eff,
@@ -262,7 +266,13 @@ Example ex_create_then_client_open :
     open_decision None false false (Some pr) = Accept c eff /\
     c = mk_cfg 3 2 "SHA-256" "ns" /\
     open_decision (Some c) true true (Some (client_load_props "/var/hs" c)) = Accept c [].
-Proof. do 3 eexists. repeat split; vm_compute; reflexivity. Qed.
+Proof.
+  exists [("store_path", PStr "/var/hs"); ("store_depth", PInt 3); ("store_width", PInt 2);
+          ("store_algorithm", PStr "SHA-256"); ("store_metadata_namespace", PStr "ns")],
+         (mk_cfg 3 2 "SHA-256" "ns"),
+         [EfMkRoot; EfWriteYaml (mk_cfg 3 2 "SHA-256" "ns"); EfMkDataDirs].
+  repeat split; vm_compute; reflexivity.
+Qed.
 
 (* ------------------------------------------------------------------ *)
 (* Auxiliary lemmas                                                    *)
@@ -654,3 +664,199 @@ Proof.
       try (destruct (size_arg fixed (o_size o)); discriminate H).
   - intros Hs. rewrite Hs. reflexivity.
 Qed.
+
+(* ------------------------------------------------------------------ *)
+(* Create / open agreement with the constructor (uses Config.v)        *)
+(* ------------------------------------------------------------------ *)
+
+Theorem client_create_props_inr_iff : forall path depth width algo ns pr,
+  client_create_props path depth width algo ns = inr pr <->
+  exists ds ws d w,
+    depth = Some ds /\ width = Some ws /\
+    py_int_of_string ds = Some d /\ py_int_of_string ws = Some w /\
+    pr = [("store_path", opt_str path); ("store_depth", PInt d); ("store_width", PInt w);
+          ("store_algorithm", opt_str algo); ("store_metadata_namespace", opt_str ns)].
+Proof.
+  intros path depth width algo ns pr. unfold client_create_props, client_int. split.
+  - intros H. destruct depth as [ds|]; [|discriminate H].
+    destruct (py_int_of_string ds) as [d|] eqn:Hd; [|discriminate H].
+    destruct width as [ws|]; [|discriminate H].
+    destruct (py_int_of_string ws) as [w|] eqn:Hw; [|discriminate H].
+    injection H as H. subst pr. exists ds, ws, d, w. repeat split; assumption.
+  - intros [ds [ws [d [w [Hde [Hwi [Hd [Hw Hpr]]]]]]]]. subst depth width pr.
+    rewrite Hd, Hw. reflexivity.
+Qed.
+
+(* `-chs` with `-dp` or `-wp` missing: TypeError; with text int() rejects: ValueError;
+   depth is looked at first. *)
+Theorem client_create_props_errors : forall path depth width algo ns e,
+  client_create_props path depth width algo ns = inl e <->
+  (depth = None /\ e = ETypeError) \/
+  (exists ds, depth = Some ds /\ py_int_of_string ds = None /\ e = EValueError) \/
+  (opt_int depth <> None /\ width = None /\ e = ETypeError) \/
+  (opt_int depth <> None /\ exists ws, width = Some ws /\ py_int_of_string ws = None /\ e = EValueError).
+Proof.
+  intros path depth width algo ns e. unfold client_create_props, client_int, opt_int. split.
+  - intros H. destruct depth as [ds|].
+    + destruct (py_int_of_string ds) as [d|] eqn:Hd.
+      * destruct width as [ws|].
+        -- destruct (py_int_of_string ws) as [w|] eqn:Hw; [discriminate H|].
+           injection H as H. subst e. right. right. right.
+           split; [discriminate|]. exists ws. repeat split. exact Hw.
+        -- injection H as H. subst e. right. right. left.
+           split; [discriminate|]. split; reflexivity.
+      * injection H as H. subst e. right. left. exists ds. repeat split. exact Hd.
+    + injection H as H. subst e. left. split; reflexivity.
+  - intros [[Hd He] | [[ds [Hd [Hi He]]] | [[Hd [Hw He]] | [Hd [ws [Hw [Hi He]]]]]]]; subst.
+    + reflexivity.
+    + rewrite Hi. reflexivity.
+    + destruct depth as [ds|]; [|exfalso; apply Hd; reflexivity].
+      destruct (py_int_of_string ds); [reflexivity | exfalso; apply Hd; reflexivity].
+    + destruct depth as [ds|]; [|exfalso; apply Hd; reflexivity].
+      destruct (py_int_of_string ds); [|exfalso; apply Hd; reflexivity].
+      rewrite Hi. reflexivity.
+Qed.
+
+(* The properties the client loads from hashstore.yaml always reopen the store: every client
+   run after creation (and the second construction in the `-chs` run itself) is accepted,
+   returns the pinned configuration, and writes nothing but missing data directories. *)
+Theorem client_open_accepts : forall y path re dd,
+  exists eff, open_decision (Some y) re dd (Some (client_load_props path y)) = Accept y eff.
+Proof.
+  intros y path re dd.
+  assert (H : exists c eff,
+             open_decision (Some y) re dd (Some (client_load_props path y)) = Accept c eff).
+  { apply open_iff. unfold client_load_props. split; [discriminate|].
+    split; [exists (PStr path); split; [reflexivity | discriminate]|].
+    split; [exists (PInt (c_depth y)); split; reflexivity|].
+    split; [exists (PInt (c_width y)); split; reflexivity|].
+    split; reflexivity. }
+  destruct H as [c [eff H]].
+  destruct (accept_existing_returns_pinned _ _ _ _ _ _ H) as [Hc _]. subst c.
+  exists eff. exact H.
+Qed.
+
+Theorem client_open_accepts_exact : forall y path re dd,
+  open_decision (Some y) re dd (Some (client_load_props path y))
+  = Accept y (if dd then [] else [EfMkDataDirs]).
+Proof.
+  intros y path re dd. destruct (client_open_accepts y path re dd) as [eff H].
+  destruct (accept_existing_returns_pinned _ _ _ _ _ _ H) as [_ [Heff _]]. subst eff. exact H.
+Qed.
+
+(* A store created through the API is opened by the client. *)
+Theorem api_create_then_client_open : forall re dd (p : props) c eff path re' dd',
+  open_decision None re dd (Some p) = Accept c eff ->
+  exists eff', open_decision (Some c) re' dd' (Some (client_load_props path c)) = Accept c eff'.
+Proof. intros re dd p c eff path re' dd' _. apply client_open_accepts. Qed.
+
+(* A store created by the client (`-chs`) pins exactly what the options said, and is then
+   opened by any API caller who supplies the same four values -- depth and width as ints or
+   as any int-like text (for instance the very option texts), algorithm and namespace as the
+   option strings.  [opt_int depth] is what int() makes of the `-dp` text. *)
+Theorem client_create_then_api_open :
+  forall path depth width algo ns re dd pr c eff,
+    client_create_props path depth width algo ns = inr pr ->
+    open_decision None re dd (Some pr) = Accept c eff ->
+    (opt_int depth = Some (c_depth c) /\ opt_int width = Some (c_width c) /\
+     algo = Some (c_algo c) /\ ns = Some (c_ns c)) /\
+    forall (p' : props) vp vd vw re' dd',
+      get "store_path" p' = Some vp -> vp <> PNone ->
+      get "store_depth" p' = Some vd -> py_int vd = opt_int depth ->
+      get "store_width" p' = Some vw -> py_int vw = opt_int width ->
+      get "store_algorithm" p' = Some (opt_str algo) ->
+      get "store_metadata_namespace" p' = Some (opt_str ns) ->
+      exists eff', open_decision (Some c) re' dd' (Some p') = Accept c eff'.
+Proof.
+  intros path depth width algo ns re dd pr c eff Hpr Hacc.
+  apply client_create_props_inr_iff in Hpr.
+  destruct Hpr as [ds [ws [d [w [Hde [Hwi [Hd [Hw Hpr]]]]]]]].
+  apply create_accept_iff in Hacc. destruct Hacc as [_ [[vp0 Hv] _]].
+  apply validate_ok_iff in Hv.
+  destruct Hv as [_ [_ [[vd0 [Hgd Hid]] [[vw0 [Hgw Hiw]] [[Hga _] [Hgn _]]]]]].
+  subst pr. simpl in Hgd, Hgw, Hga, Hgn.
+  injection Hgd as Hgd. subst vd0. injection Hgw as Hgw. subst vw0.
+  simpl in Hid, Hiw. injection Hid as Hid. injection Hiw as Hiw. subst d w.
+  injection Hga as Hga. injection Hgn as Hgn.
+  assert (Halgo : algo = Some (c_algo c)).
+  { destruct algo as [t|]; simpl in Hga; [|discriminate Hga]. injection Hga as Hga. subst t.
+    reflexivity. }
+  assert (Hns : ns = Some (c_ns c)).
+  { destruct ns as [t|]; simpl in Hgn; [|discriminate Hgn]. injection Hgn as Hgn. subst t.
+    reflexivity. }
+  subst depth width algo ns. simpl opt_int. simpl opt_str.
+  split; [repeat split; assumption|].
+  intros p' vp vd vw re' dd' Hp Hpn Hgd' Hid' Hgw' Hiw' Hga' Hgn'.
+  assert (H : exists c0 eff0, open_decision (Some c) re' dd' (Some p') = Accept c0 eff0).
+  { apply open_iff.
+    split; [intros Hnil; subst p'; discriminate Hp|].
+    split; [exists vp; split; assumption|].
+    split; [exists vd; split; [exact Hgd' | rewrite Hid'; exact Hd]|].
+    split; [exists vw; split; [exact Hgw' | rewrite Hiw'; exact Hw]|].
+    split; assumption. }
+  destruct H as [c0 [eff0 H]].
+  destruct (accept_existing_returns_pinned _ _ _ _ _ _ H) as [Hc _]. subst c0.
+  exists eff0. exact H.
+Qed.
+
+(* instance: the API caller passes the option texts themselves *)
+Corollary client_create_then_api_open_with_texts :
+  forall path depth width algo ns re dd pr c eff sp re' dd',
+    client_create_props path depth width algo ns = inr pr ->
+    open_decision None re dd (Some pr) = Accept c eff ->
+    exists eff',
+      open_decision (Some c) re' dd'
+        (Some [("store_path", PStr sp); ("store_depth", opt_str depth);
+               ("store_width", opt_str width); ("store_algorithm", opt_str algo);
+               ("store_metadata_namespace", opt_str ns)]) = Accept c eff'.
+Proof.
+  intros path depth width algo ns re dd pr c eff sp re' dd' Hpr Hacc.
+  destruct (client_create_then_api_open _ _ _ _ _ _ _ _ _ _ Hpr Hacc) as [_ Hopen].
+  apply (Hopen _ (PStr sp) (opt_str depth) (opt_str width));
+    try reflexivity; try discriminate.
+  - destruct depth; reflexivity.
+  - destruct width; reflexivity.
+Qed.
+
+(* instance: the client's own dict reopens the store it created *)
+Corollary client_create_then_same_props_open :
+  forall path depth width algo ns re dd pr c eff,
+    client_create_props path depth width algo ns = inr pr ->
+    open_decision None re dd (Some pr) = Accept c eff ->
+    exists eff', open_decision (Some c) true true (Some pr) = Accept c eff'.
+Proof.
+  intros path depth width algo ns re dd pr c eff _ Hacc.
+  destruct (create_then_reopen _ _ _ _ _ Hacc) as [_ [H _]]. exact H.
+Qed.
+
+(* ------------------------------------------------------------------ *)
+
+Print Assumptions client_types_fixed.
+Print Assumptions client_types_today_iff.
+Print Assumptions client_types_today_refuted.
+Print Assumptions client_today_eq_fixed_without_size.
+Print Assumptions client_today_eq_fixed_other_verbs.
+Print Assumptions client_values_getchecksum.
+Print Assumptions client_values_storeobject.
+Print Assumptions client_values_storeobject_today.
+Print Assumptions client_values_storemetadata.
+Print Assumptions client_values_retrieveobject.
+Print Assumptions client_values_retrievemetadata.
+Print Assumptions client_values_deleteobject.
+Print Assumptions client_values_deletemetadata.
+Print Assumptions client_format_default.
+Print Assumptions client_format_given.
+Print Assumptions client_format_never_none.
+Print Assumptions client_requires_pid.
+Print Assumptions client_requires_path.
+Print Assumptions client_requires_algo.
+Print Assumptions client_exn_class.
+Print Assumptions client_nothing_iff.
+Print Assumptions client_create_props_inr_iff.
+Print Assumptions client_create_props_errors.
+Print Assumptions client_open_accepts.
+Print Assumptions client_open_accepts_exact.
+Print Assumptions api_create_then_client_open.
+Print Assumptions client_create_then_api_open.
+Print Assumptions client_create_then_api_open_with_texts.
+Print Assumptions client_create_then_same_props_open.
